@@ -382,8 +382,15 @@ pub fn c15a_case(ex: &mut Expander, tape: &Vec<u32>, st: &mut Stats) -> Result<(
     let opts = GenOpts { allow_attrs: false, ..GenOpts::default() };
     let mut p = gen_msg_program("p_gen", tape.clone(), &opts);
     let mut t = svmodel::tape::Tape::new(tape.iter().rev().cloned().collect());
+    if !p.contract.generics.is_empty() && t.chance(30) {
+        // the error type of the StdError-returning queries mentions a parameter (and nothing else does, often)
+        p.contract.query_err_param = Some(t.pick(p.contract.generics.len()));
+    }
     if p.contract.generics.is_empty() {
         p.contract.generics = vec![Ty::Rec, Ty::Choice];
+        if t.chance(40) {
+            p.contract.query_err_param = Some(t.pick(2));
+        }
         // assign the new parameters to some arguments: direct, nested, response-only, unused
         let n = p.contract.methods.len();
         for (mi, m) in p.contract.methods.iter_mut().enumerate() {
